@@ -60,6 +60,78 @@ def l2_szdd(res, tier, rng):
         res.violation("SZDD callback trace of the C code differs from the model under fault plan %s" % (p,), "# engine szddl2: script faults hex\n%s\n# model status %s\n# %s\n" % (ln, st, crash), found_input=False)
     return n
 
+def l2_kwaj(res, tier, rng):
+    """the same for the KWAJ front end (L2/Kwaj.v: open with every optional header, extract for methods NONE / XOR / SZDD / unknown, close,
+    decompress): identical callback traces, statuses, header fields and outputs for every single fault"""
+    ok, log, mexe = vlib.build_model_drv()
+    if not ok: res.oblige("model driver builds", False, log[-300:]); return
+    ok, log, exe = vlib.build_impl("asan")
+    if not ok: res.oblige("C harness builds (asan)", False, log[-300:]); return
+    ntr = 8 if tier == "quick" else 80
+    n = 0; bad = []
+    for trial in range(ntr):
+        comp = [0, 1, 2, 7, 0, 2][trial % 6]
+        plain = bytes(rng.choice(b"kwaj \n\x00") for _ in range(rng.choice([0, 5, 300, 5000 if tier != "quick" else 40])))
+        if comp == 2: payload, plain = sweep.py_lzss(rng, rng.choice([0, 3, 30]), 2)
+        elif comp == 1: payload = bytes(b ^ 0xFF for b in plain)
+        else: payload = plain
+        flags = 63 if trial % 3 == 0 else rng.randrange(64)
+        f = kwajfmt.kwaj(comp, payload, flags, len(plain), b"ab", bytes(rng.randrange(256) for _ in range(rng.choice([0, 5]))),
+                         bytes(rng.choice(b"NAMEfile") for _ in range(rng.choice([1, 5, 8]))), bytes(rng.choice(b"ext") for _ in range(rng.choice([0, 1, 3]))),
+                         bytes(rng.randrange(1, 256) for _ in range(rng.choice([0, 1, 20]))))
+        if trial % 4 == 3: f = f[:rng.randrange(len(f))]
+        if trial % 11 == 10: f = bytes([f[0] ^ 1]) + f[1:]
+        for script in "AB":
+            def mk(faults):
+                sc = scenario.Scn().file("in0.kwj", f).trace(1).hexout(1)
+                for (k, i, m) in faults: sc.fault(k, i, "short" if m else "err")
+                sc.op("kwaj_new")
+                if script == "A": sc.op("kwaj_decompress", "in0.kwj", "out0")
+                else: sc.op("kwaj_open", "h0", "in0.kwj").op("kwaj_extract", "h0", "out0").op("kwaj_extract", "h0", "out1").op("kwaj_close", "h0")
+                sc.op("kwaj_destroy"); return sc
+            clean = scenario.run_scenarios(exe, [mk([])])[0]
+            plans = [[]]
+            for k in ("open", "read", "write", "seek", "alloc"):
+                for i in range(clean.calls.get(k, 0)):
+                    plans.append([(k, i, 0)])
+                    if k == "write" and i < 3: plans.append([(k, i, 1)])
+            if len(plans) > 120: plans = plans[:60] + rng.sample(plans[60:], 60)
+            trs = scenario.run_scenarios(exe, [mk(p) for p in plans])
+            lines = ["%s %s %s" % (script, ",".join("%d:%d:%d" % (l2.KIND_CODE[k], i, m) for (k, i, m) in p) or "-", f.hex() or "-") for p in plans]
+            rc, out, err = vlib.run_lines(mexe, ["kwajl2"], lines)
+            for p, t, o, ln in zip(plans, trs, out, lines):
+                n += 1; res.count("l2-kwaj-" + ("fault" if p else "clean"))
+                parts = o.split("|")
+                st, ev, outs = l2.parse_model("|".join(parts[:3])); mh = [int(x) for x in parts[3].split(",")] if len(parts) > 3 and parts[3] else []
+                cev = l2.canon(t.raw); why = None
+                if t.crash: why = "crash " + t.crash[-200:]
+                elif ev != cev: why = "callback traces differ"
+                elif script == "A":
+                    d = [x for x in t.ops if x.name == "kwaj_decompress"]
+                    cst = [int(d[0].kv["st"]), int(d[0].kv["err"])] if d else None
+                    if not ((cst == st) or (cst is None and st == [98, 98])): why = "status %s vs model %s" % (cst, st)
+                    elif d and d[0].out not in (None, "absent") and (outs[0] if outs else "") != d[0].out: why = "output differs"
+                else:
+                    o_ = [x for x in t.ops if x.name == "kwaj_open"]
+                    if o_ and o_[0].kv.get("ok") == "1":
+                        hl = [l for l in o_[0].lines if l.startswith("kwaj ")]
+                        kv = dict(x.split("=", 1) for x in hl[0].split()[1:]) if hl else {}
+                        nm = bytes.fromhex(kv["name"]) if kv.get("name") not in (None, "-", "e") else b""
+                        ex = bytes.fromhex(kv["extra"]) if kv.get("extra") not in (None, "-") else b""
+                        ch = [int(kv["comp"]), int(kv["dataoff"]), int(kv["headers"]), int(kv["len"]), len(nm), len(ex)] + list(nm) + list(ex)
+                        if ch != mh: why = "header fields differ: C %s model %s" % (ch[:8], mh[:8])
+                        exs = [x for x in t.ops if x.name == "kwaj_extract"]
+                        if why is None and [int(x.kv["st"]) for x in exs] != st[1:3]: why = "extract statuses %s vs model %s" % ([x.kv["st"] for x in exs], st)
+                    elif o_ and st and st[0] == 0: why = "C open failed, model open succeeded"
+                if why: bad.append((script, p, ln, why, st, ev[:3], cev[:3]))
+    res.evaluations += n; res.traces += n
+    res.nontrivial.add(("l2k", n))
+    res.oblige("L2 correspondence: KWAJ port and C make identical callback sequences, statuses, header fields and outputs (every single fault point; %d scenarios)" % n, not bad, str(bad[:1])[:600])
+    if bad:
+        script, p, ln, why, st, ev, cev = bad[0]
+        res.violation("KWAJ: the C code and the callback-level model differ under fault plan %s: %s" % (p, why), "# engine kwajl2: script faults hex\n%s\n# model status %s\n# %s\n" % (ln, st, why), found_input=False)
+    return n
+
 class Sweep:
     """runs the corpus; keeps clean transcripts and, on request, faulted ones"""
     def __init__(self, res, tier, rng, variant="asan", gen_n=None, dmg=None, fault_per_kind=None, maxfault_cases=None):
